@@ -56,9 +56,39 @@ package bmmatrix
 //@   loop 1: invariant idx: 0 <= i && i <= n
 //@   loop 1: invariant done: forall p int, q int :: 0 <= p && p < n && 0 <= q && q < n ==> m.Data[p][q] == ((p == q && p < i) ? Complex32{1.0, 0.0} : Complex32{0.0, 0.0})
 
-// the product allocates its result; neither the matrix nor the vector is written
+// ---- matrix times vector ---------------------------------------------------------------------------------------
+
+// complex sum and product, as the code computes them (float32 operations are uninterpreted: no arithmetic law is used)
+//@ spec cadd(x Complex32, y Complex32) Complex32 := Complex32{x.Real + y.Real, x.Imag + y.Imag}
+//@ spec cmul(x Complex32, y Complex32) Complex32 := Complex32{x.Real * y.Real - x.Imag * y.Imag, x.Real * y.Imag + x.Imag * y.Real}
+
+//@ func Complex32Add(a Complex32, b Complex32) Complex32
+//@   ensures sum: result == cadd(a, b)
+//@   pure
+
+//@ func Complex32Mul(a Complex32, b Complex32) Complex32
+//@   ensures product: result == cmul(a, b)
+//@   pure
+
+// dotp(a, b, i, k): the sum, in index order starting from zero, of the first k products of row i of a with b.
+// The two axioms are its definition by recursion on k, read against the contents of a and b at the call.
+//@ uninterp dotp(a *BmMatrixSquareComplex, b []Complex32, i int, k int) Complex32
+//@ axiom dotZero: forall a *BmMatrixSquareComplex, b []Complex32, i int :: dotp(a, b, i, 0) == Complex32{0.0, 0.0}
+//@ axiom dotStep: forall a *BmMatrixSquareComplex, b []Complex32, i int, k int :: a != nil && 0 <= i && i < len(a.Data) && 0 <= k && k < len(a.Data[i]) && k < len(b) ==>
+//@         dotp(a, b, i, k + 1) == cadd(dotp(a, b, i, k), cmul(a.Data[i][k], b[k]))
+
+// Every component of the result is the complete row-times-vector sum, all N terms in order; the result is a new
+// array and neither the matrix nor the vector is written.
 //@ func MatrixVectorProductComplex(a *BmMatrixSquareComplex, b []Complex32) ([]Complex32, error)
-//@   requires a != nil
-//@   ensures ok: result1 == nil ==> fresh(result) && len(result) == a.N
+//@   requires wfMatrix(a)
+//@   ensures ok: result1 == nil ==> fresh(result) && len(result) == a.N && len(b) == a.N
+//@   ensures rows: result1 == nil ==> (forall i int :: 0 <= i && i < a.N ==> result[i] == dotp(a, b, i, a.N))
 //@   assigns nothing
-//@   trusted
+//@   uses dotZero, dotStep
+//@   loop 1: modifies c[*]
+//@   loop 1: invariant idx: 0 <= i && i <= a.N && len(c) == a.N && fresh(c)
+//@   loop 1: invariant done: forall p int :: 0 <= p && p < i ==> c[p] == dotp(a, b, p, a.N)
+//@   loop 2: modifies c[*]
+//@   loop 2: invariant idx: 0 <= i && i < a.N && 0 <= j && j <= a.N && len(c) == a.N && fresh(c)
+//@   loop 2: invariant done: forall p int :: 0 <= p && p < i ==> c[p] == dotp(a, b, p, a.N)
+//@   loop 2: invariant partial: c[i] == dotp(a, b, i, j)
